@@ -31,6 +31,12 @@ CHECKS = {
     text="Every chain of up to 2 (thorough: 3) casts - into/from array, component and uint; free functions, From*/Into*/Try* traits, borrowing As* traits, mirrored traits and the traits on &holder; by value, ref, mut, Box, [C;2], slice, mutable slice, boxed slice and Vec; map_vec_in_place / map_slice_box_in_place - from every buffer with n in 1..4, up to 8 components and Vec capacities up to 10 including non-multiples (8 313 / 82 911 / 760 617 chains) is executed on Luma, Lumaa, all 26 colour structs, Alpha, PreAlpha and Packed with u8/u16/u32/f32/f64 (u64/u128 for uint casts). After every call TLC requires the flat contents (bit-exact tokens written by field name, declared order, alpha last), length, observed capacity, address identity, size_of/align_of, error kind (length vs capacity vs panic) and the handed-back buffer to equal the model's next state.",
     ref="DESIGN.md section 4 C04",
     note=TRUST + "; Vec::capacity/as_ptr/size_of/align_of as observations; layout soundness is observed (values, addresses, sizes, alignments, std's debug precondition checks, Miri on sampled scenarios in the thorough tier), not proved - the specification does not model provenance; by-value component arrays only for 2n and 2n+1 elements; a cast that kills the process is located by rerunning with --crashlog and reported as a violation; Vec capacities are whatever the allocator gave"),
+ "C05": dict(
+    technique="bit-exact TLA+ integer model of the float->u8/u16 lookup-table encoders over the tables dumped from the compiled code (Lut.tla), published transfer curves as relations between integer powers (Transfer.tla); TLC exhaustive over all table classes/segments/code boundaries; real encoders swept over all 2^32 f32 patterns (thorough) and recorded as runs; TLC trace validation (TraceLut.tla)",
+    category="model_checking",
+    text="TLC proves on the dumped tables that every clamped input indexes inside its table, the code is monotone, saturates at 0 and max, every code is produced, the error against the standard curve is below 0.6 code at every code boundary (compared by integer powers, 2^-60 margin), and decode-then-encode reproduces every code (all 8-bit classes and codes; all 16-bit segments, every 64th/8th 16-bit code). The real FromLinear<f32,u8/u16> of every encoding is swept (quick: both ends and a representative of every class; thorough: all 2^32 bit patterns, NaN included) and its step function must equal the model's run by run and stay within 0.6 at both ends of every run; model-predicted boundaries are executed on the real code; f64 inputs around breakpoints (exact round-to-nearest-even model), all decoders (on the curve within 128 u f32 / 512 u f64, re-encode to the code), generic float curves (on the curve, mutually inverse, monotone except < 1e-6 at the join) for 6 curves x f32/f64, and Rgb/Rgba/Luma/Lumaa forms bit-identical to component-wise calls.",
+    ref="DESIGN.md section 4 C05",
+    note=TRUST + "; hooks H1/H2 (palette::encoding::__verif, index assertion) are how the tables are read and an index overrun becomes a panic; published constants as written in Transfer.tla (sRGB with 1.055 or the continuous 1.0549999686, Rec with exact or three-digit constants, either accepted); monotonicity inside a 16-bit segment/toe by construction; vacuity by TAKEN witnesses because TLC -coverage runs out of memory on this spec; Gamma/F2p2 (deprecated) not covered; a table change that keeps every clause (e.g. scale +1) is deliberately not a violation"),
  "C06": dict(
     technique="explicit TLA+ contract on exact values (Stimulus.tla: limb integers, exact dyadics); TLC model run (satisfiable, implies the round trips, rejects wrong answers) with emitted lattice cases; TLC trace validation of recorded palette calls; thorough: exhaustive run-length sweeps",
     category="model_checking",
